@@ -150,12 +150,12 @@ func cvEval(n *SNode, c *CEnv) *CV {
 	case "field":
 		if n.Args[0].Op == "id" {
 			if _, isName := c.tryLookup(n.Args[0].Name); !isName && c.pkg != nil {
-				for _, imp := range c.pkg.Types.Imports() {
-					if imp.Name() == n.Args[0].Name {
-						if obj := imp.Scope().Lookup(n.Name); obj != nil {
-							if k, ok := obj.(*types.Const); ok {
-								return constCV(k.Val())
-							}
+				// the qualifier is the name the package is imported under in the source files (an alias such as
+				// feedstypes), not necessarily the package's own name
+				if imp := (&FCtx{E: c.e}).importByName(c.pkg, n.Args[0].Name); imp != nil {
+					if obj := imp.Scope().Lookup(n.Name); obj != nil {
+						if k, ok := obj.(*types.Const); ok {
+							return constCV(k.Val())
 						}
 					}
 				}
@@ -266,7 +266,10 @@ func cvQuant(n *SNode, bs []Binder, c *CEnv) bool {
 func cvTryBool(n *SNode, c *CEnv, neutral bool) (res bool) {
 	defer func() {
 		if r := recover(); r != nil {
-			if _, is := r.(cvErr); is {
+			// only the partiality of indexing is neutral under a quantifier (the bound variable ranges a little beyond
+			// the collections); any other evaluation failure makes the whole clause non-evaluable, it must not be read
+			// as "false"
+			if ce, is := r.(cvErr); is && (strings.Contains(ce.what, "index out of range") || strings.Contains(ce.what, "map key not present")) {
 				res = neutral
 				return
 			}
